@@ -39,6 +39,14 @@ Proof.
 Qed.
 Print Assumptions C17_encapsulate_current_code.
 
+(* The refusal predicate looks at inherited methods too (`accessor in pyclass`): a class whose base class defines
+   get_x is refused (and is outside [side], which also asks for programs without base classes: Obj's semantics
+   has no inheritance, such projects are covered by the execution oracle and the refusal comparison only). *)
+Example C17_inherited_accessor_refused :
+  enc_refuses w_cfg w_inherit = true /\ side w_cfg w_inherit = false.
+Proof. exact inherited_refused. Qed.
+Print Assumptions C17_inherited_accessor_refused.
+
 Example C17_encapsulate_example :
   side w_cfg w_good = true /\
   tP w_cfg w_good <> w_good /\
